@@ -1,8 +1,7 @@
 import JominiModel.Props.C04
-open Jomini.Props.C04
-#print axioms C04_token_dispatch
-#print axioms C04_rgb_dispatch
-#print axioms C04_rgb_components
-#print axioms C04_root_only_maps
-#print axioms C04_ondemand_eq_stream_partial
-#print axioms C04_readers_agree
+#print axioms Jomini.Props.C04.C04_token_dispatch
+#print axioms Jomini.Props.C04.C04_rgb_dispatch
+#print axioms Jomini.Props.C04.C04_rgb_components
+#print axioms Jomini.Props.C04.C04_root_only_maps
+#print axioms Jomini.Props.C04.C04_ondemand_eq_stream_partial
+#print axioms Jomini.Props.C04.C04_readers_agree
